@@ -119,6 +119,7 @@ type Op struct {
 	Via       string   `json:"via,omitempty"`        // merge, merge-fresh
 	Limit     int      `json:"limit,omitempty"`      // merge-fresh: limit of the new store, as Case.Limit
 	ZeroLimit bool     `json:"zero_limit,omitempty"` // merge-fresh: as Case.ZeroLimit
+	Macro     string   `json:"macro,omitempty"`      // informational: the constructed block the step belongs to (gen_test.go)
 }
 
 // Side describes the second store of a case; the fields mean what they mean in Case.
@@ -282,6 +283,10 @@ type store struct {
 	tee    *factstore.TeeingTemporalStore
 	layers [2][]pair          // 0: the store itself, 1: output layer of the teeing wrapper
 	merged [2]map[string]bool // ids of the pairs of a layer that arrived through Merge
+	// for the labels only: per layer and predicate, the number of pairs the layer held right after the
+	// predicate was coalesced last, and whether it has received pairs since.
+	coalescedAt [2]map[int]int
+	grown       [2]map[int]bool
 }
 
 func newStore(m *model, name string, limit int, zero bool) *store {
@@ -295,6 +300,8 @@ func newStore(m *model, name string, limit int, zero bool) *store {
 		s.base = factstore.NewTemporalStore()
 	}
 	s.merged[0], s.merged[1] = map[string]bool{}, map[string]bool{}
+	s.coalescedAt[0], s.coalescedAt[1] = map[int]int{}, map[int]int{}
+	s.grown[0], s.grown[1] = map[int]bool{}, map[int]bool{}
 	return s
 }
 
@@ -459,6 +466,9 @@ func (k *checker) describe(i int) string {
 	on := ""
 	if op.S == 1 {
 		on = " [side store]"
+	}
+	if op.Macro != "" {
+		on += " {" + op.Macro + "}"
 	}
 	switch op.K {
 	case opAdd:
@@ -640,6 +650,7 @@ func (k *checker) doAdd(op Op) {
 			k.failf("Add of a new pair answered (%v, %v), want (true, nil); stored pairs: %v", ok, err, st.dump())
 		}
 		st.layers[l] = append(st.layers[l], p)
+		st.grown[l][k.c.Atoms[op.A].P] = true
 	}
 }
 
@@ -715,6 +726,17 @@ func (k *checker) doCoalesce(p int) {
 			}
 		}
 	}
+	if n, done := st.coalescedAt[l][p]; done {
+		k.label("coalesce-again")
+		if st.grown[l][p] {
+			k.label("coalesce-again-after-insertions")
+			// the layer holds as many pairs as right after the last coalescing of p although p has grown:
+			// another predicate has lost as many pairs to its coalescing as were inserted since
+			if n == len(st.layers[l]) {
+				k.label("coalesce-again-after-insertions-at-equal-pair-count")
+			}
+		}
+	}
 	before := st.probes(p)
 	var members []int
 	for ai, a := range k.c.Atoms {
@@ -764,6 +786,7 @@ func (k *checker) doCoalesce(p int) {
 		}
 	}
 	st.layers[l] = append(kept, scanned...)
+	st.coalescedAt[l][p], st.grown[l][p] = len(st.layers[l]), false
 	for _, ai := range members {
 		for _, t := range after {
 			w := want[[2]int64{int64(ai), t}]
@@ -912,6 +935,7 @@ func (k *checker) doMerge(dst, src *store, via, tag string) {
 	for _, q := range scanned {
 		if !old[q.id] {
 			dst.merged[l][q.id] = true
+			dst.grown[l][k.c.Atoms[q.ai].P] = true
 		}
 	}
 	if err != nil && len(scanned) > len(dst.layers[l]) {
@@ -1135,6 +1159,9 @@ func check(run *stats.Run, f stats.Failer, c Case) verdict {
 		}
 		if op.Pat != nil {
 			k.label("read-with-constant")
+		}
+		if op.Macro != "" {
+			k.label("macro:" + op.Macro)
 		}
 	}
 	v := verdict{nontrivial: nontrivial}
